@@ -261,3 +261,182 @@ Example C15_missing_name_lexed_nonvacuous :
   /\ prep_text (render ex_lexed_missing)
      = [(T_Def, 3, None); (T_Whitespace, 1, None); (T_Error, 8, Some (ErrPrep PEDefineName)); (T_Eof, 0, None)].
 Proof. vm_compute. repeat split; reflexivity. Qed.
+
+(** * Parser level: disabled text produces neither nodes nor diagnostics, for EVERY program of the
+      grammar DSL (proofs in TG.Proofs.ParsePrep).
+    Vocabulary (TG.Model.ParserPrims / GInterp / Tree: the model of parser.rs, of the grammar DSL
+    interpreter and of rowan trees; parse_with fuel p entry txt = ParseOk t errs st: the program [p]
+    run from function [entry] on [txt] ends without panic / out-of-fuel with tree [t], errors [errs]
+    (lo, hi, message) and final parser state [st]; cur st = the look-ahead kind):
+      xentry = kind * covered raw tokens * taken error (one delivery of the preprocessor);
+      hist st raw h st' raw' : delivering and saving the entries [h] one after the other
+        (prep_next, then take_error iff the kind is Error) leads from (st, raw) to (st', raw');
+      xleaf x = (sk_of_tk (kind x), source text of the covered raw tokens); strip = a leaf without
+        its offsets; not_eofx / not_eof_leaf = "kind is not Eof"; vis_leaf = neither trivia nor Eof;
+      tok_leaf tok = (sk_of_tk (rk tok), rtext tok);
+      hlen a = total byte length of the entries [a]; curx st pre = the look-ahead of [st] as an entry;
+      err_at strict hall (lo, hi, _) : hall = a ++ x :: b, lo = hlen a, hi = lo + length of x, and x is
+        not trivia (or, when strict = false, x is the very first delivered entry);
+      err_on_selected items hall (lo, hi, _) first_ok : the same with "x is the Eof entry or
+        x = deliverx tok for a SELECTED non-trivia tok of the reference evaluation" (or first_ok and x first);
+      lead n p e = Done : static criterion "e certainly reaches skip/eat before it can report an error". *)
+From TG.Gen Require Import GenGrammar.
+From TG.Model Require Import Tree ParserPrims GInterp.
+From TG.Proofs Require Import ParserTile ParsePrep.
+Close Scope string_scope.
+Close Scope nat_scope.
+Open Scope N_scope.
+
+(** (A) the leaves of the tree are, in order, exactly the entries the preprocessor delivered (kinds via
+    sk_of_tk, texts = covered source text); when the parse ends at Eof these are all the non-Eof
+    entries of the preprocessor run over the text *)
+Theorem C15_parse_leaves_any_program : forall p entry fuel txt t errs st,
+  parse_with fuel p entry txt = ParseOk t errs st ->
+  exists h st0 r0, hist pinit (raw_lex txt) h st0 r0
+    /\ map strip (leaves t) = map xleaf h
+    /\ (cur st = T_Eof ->
+        filter not_eofx h = filter not_eofx (prep_runx (raw_lex txt))
+        /\ filter not_eof_leaf (map strip (leaves t)) = map xleaf (filter not_eofx (prep_runx (raw_lex txt)))).
+Proof. exact ParsePrep.parse_leaves_any_program. Qed.
+Check C15_parse_leaves_any_program : forall p entry fuel txt t errs st,
+  parse_with fuel p entry txt = ParseOk t errs st ->
+  exists h st0 r0, hist pinit (raw_lex txt) h st0 r0
+    /\ map strip (leaves t) = map xleaf h
+    /\ (cur st = T_Eof ->
+        filter not_eofx h = filter not_eofx (prep_runx (raw_lex txt))
+        /\ filter not_eof_leaf (map strip (leaves t)) = map xleaf (filter not_eofx (prep_runx (raw_lex txt)))).
+Print Assumptions C15_parse_leaves_any_program.
+
+(** (B) for a well-nested arrangement parsed to the end (any program): the non-trivia leaves are exactly
+    the selected non-trivia tokens, and every token of a disabled region lies inside a trivia leaf of
+    kind PreProcessor (so no node contains it except as trivia) *)
+Theorem C15_disabled_no_nodes : forall p entry fuel txt t errs st items,
+  parse_with fuel p entry txt = ParseOk t errs st ->
+  raw_lex txt = render_items items -> items_ok items = true -> cur st = T_Eof ->
+  filter vis_leaf (map strip (leaves t))
+  = map tok_leaf (filter (fun tok => negb (is_trivia (rk tok))) (snd (select [] items)))
+  /\ (forall tok, In tok (disabled [] items) ->
+        exists c, In (S_PreProcessor, raw_text c) (map strip (leaves t)) /\ In tok c).
+Proof. exact ParsePrep.parse_disabled_no_nodes. Qed.
+Check C15_disabled_no_nodes : forall p entry fuel txt t errs st items,
+  parse_with fuel p entry txt = ParseOk t errs st ->
+  raw_lex txt = render_items items -> items_ok items = true -> cur st = T_Eof ->
+  filter vis_leaf (map strip (leaves t))
+  = map tok_leaf (filter (fun tok => negb (is_trivia (rk tok))) (snd (select [] items)))
+  /\ (forall tok, In tok (disabled [] items) ->
+        exists c, In (S_PreProcessor, raw_text c) (map strip (leaves t)) /\ In tok c).
+Print Assumptions C15_disabled_no_nodes.
+
+(** (C) any program: every recorded error is the range of ONE delivered entry (lo = bytes of everything
+    delivered before it, hi = lo + its length), which is non-trivia or the first delivered entry *)
+Theorem C15_errors_any_program : forall p entry fuel txt t errs st,
+  parse_with fuel p entry txt = ParseOk t errs st ->
+  exists h pre st0 r0, hist pinit (raw_lex txt) (h ++ [curx st pre]) st0 r0
+    /\ map strip (leaves t) = map xleaf h
+    /\ Forall (err_at false (h ++ [curx st pre])) errs.
+Proof. exact ParsePrep.parse_errors_any_program. Qed.
+Check C15_errors_any_program : forall p entry fuel txt t errs st,
+  parse_with fuel p entry txt = ParseOk t errs st ->
+  exists h pre st0 r0, hist pinit (raw_lex txt) (h ++ [curx st pre]) st0 r0
+    /\ map strip (leaves t) = map xleaf h
+    /\ Forall (err_at false (h ++ [curx st pre])) errs.
+Print Assumptions C15_errors_any_program.
+
+(** ... hence, for a well-nested arrangement parsed to the end, on the first delivered entry, on the
+    Eof entry, or on a SELECTED non-trivia token: no diagnostic is located in disabled text *)
+Theorem C15_disabled_no_errors : forall p entry fuel txt t errs st items,
+  parse_with fuel p entry txt = ParseOk t errs st ->
+  raw_lex txt = render_items items -> items_ok items = true -> cur st = T_Eof ->
+  exists hall st0 r0, hist pinit (raw_lex txt) hall st0 r0
+    /\ Forall (fun e => err_on_selected items hall e true) errs.
+Proof. exact ParsePrep.parse_disabled_no_errors. Qed.
+Check C15_disabled_no_errors : forall p entry fuel txt t errs st items,
+  parse_with fuel p entry txt = ParseOk t errs st ->
+  raw_lex txt = render_items items -> items_ok items = true -> cur st = T_Eof ->
+  exists hall st0 r0, hist pinit (raw_lex txt) hall st0 r0
+    /\ Forall (fun e => err_on_selected items hall e true) errs.
+Print Assumptions C15_disabled_no_errors.
+
+(** (D) programs that certainly skip before they can report an error (static criterion [lead]): every
+    error is the range of a NON-TRIVIA delivered entry; the translated grammar is such a program *)
+Theorem C15_errors_skip_first : forall n p entry fuel txt t errs st,
+  lead n p (ECall entry None) = Done ->
+  parse_with fuel p entry txt = ParseOk t errs st ->
+  exists h pre st0 r0, hist pinit (raw_lex txt) (h ++ [curx st pre]) st0 r0
+    /\ map strip (leaves t) = map xleaf h
+    /\ Forall (err_at true (h ++ [curx st pre])) errs.
+Proof. exact ParsePrep.parse_errors_strict. Qed.
+Check C15_errors_skip_first : forall n p entry fuel txt t errs st,
+  lead n p (ECall entry None) = Done ->
+  parse_with fuel p entry txt = ParseOk t errs st ->
+  exists h pre st0 r0, hist pinit (raw_lex txt) (h ++ [curx st pre]) st0 r0
+    /\ map strip (leaves t) = map xleaf h
+    /\ Forall (err_at true (h ++ [curx st pre])) errs.
+Print Assumptions C15_errors_skip_first.
+
+Example C15_grammar_skips_first : lead 8 grammar_prog (ECall grammar_entry None) = Done.
+Proof. vm_compute. reflexivity. Qed.
+
+Theorem C15_errors_grammar : forall fuel txt t errs st,
+  parse_with fuel grammar_prog grammar_entry txt = ParseOk t errs st ->
+  exists h pre st0 r0, hist pinit (raw_lex txt) (h ++ [curx st pre]) st0 r0
+    /\ map strip (leaves t) = map xleaf h
+    /\ Forall (err_at true (h ++ [curx st pre])) errs.
+Proof. exact ParsePrep.grammar_errors_non_trivia. Qed.
+Check C15_errors_grammar : forall fuel txt t errs st,
+  parse_with fuel grammar_prog grammar_entry txt = ParseOk t errs st ->
+  exists h pre st0 r0, hist pinit (raw_lex txt) (h ++ [curx st pre]) st0 r0
+    /\ map strip (leaves t) = map xleaf h
+    /\ Forall (err_at true (h ++ [curx st pre])) errs.
+Print Assumptions C15_errors_grammar.
+
+(** the translated grammar on a well-nested arrangement parsed to the end: every diagnostic is located
+    on the Eof entry or on a SELECTED non-trivia token *)
+Theorem C15_disabled_no_errors_grammar : forall fuel txt t errs st items,
+  parse_with fuel grammar_prog grammar_entry txt = ParseOk t errs st ->
+  raw_lex txt = render_items items -> items_ok items = true -> cur st = T_Eof ->
+  exists hall st0 r0, hist pinit (raw_lex txt) hall st0 r0
+    /\ Forall (fun e => err_on_selected items hall e false) errs.
+Proof. exact ParsePrep.grammar_disabled_no_errors. Qed.
+Check C15_disabled_no_errors_grammar : forall fuel txt t errs st items,
+  parse_with fuel grammar_prog grammar_entry txt = ParseOk t errs st ->
+  raw_lex txt = render_items items -> items_ok items = true -> cur st = T_Eof ->
+  exists hall st0 r0, hist pinit (raw_lex txt) hall st0 r0
+    /\ Forall (fun e => err_on_selected items hall e false) errs.
+Print Assumptions C15_disabled_no_errors_grammar.
+
+(** Non-vacuity (definitions in ParsePrep, section 8).  [ex_src] =
+      #ifdef A / .. <unterminated string> / #define B / #endif / class C; / #ifdef B / } / #endif
+    A is undefined: the first region (two raw Error tokens and a #define) is disabled, hence B is
+    undefined and the second region (a stray brace) is disabled too.  The translated grammar parses it
+    to Eof without a diagnostic; the non-trivia leaves are class C ; and the two disabled regions are
+    one PreProcessor trivia leaf each. *)
+Example C15_parse_nonvacuous :
+  raw_lex ex_src = render_items ex_src_items /\ items_ok ex_src_items = true
+  /\ existsb (fun t => tk_eqb (rk t) T_Error) (disabled [] ex_src_items) = true
+  /\ existsb (fun t => tk_eqb (rk t) T_Define) (disabled [] ex_src_items) = true
+  /\ existsb (fun t => tk_eqb (rk t) T_RBrace) (disabled [] ex_src_items) = true
+  /\ parse_view (parse_with 2000 grammar_prog grammar_entry ex_src)
+     = Some ([(S_PreProcessor,
+               [35; 105; 102; 100; 101; 102; 32; 65; 10; 46; 46; 32; 34; 120; 10; 35; 100; 101; 102; 105; 110; 101;
+                32; 66; 10; 35; 101; 110; 100; 105; 102]);
+              (S_Whitespace, [10]); (S_ClassKw, [99; 108; 97; 115; 115]); (S_Whitespace, [32]); (S_Id, [67]);
+              (S_Semi, [59]); (S_Whitespace, [10]);
+              (S_PreProcessor, [35; 105; 102; 100; 101; 102; 32; 66; 10; 125; 10; 35; 101; 110; 100; 105; 102]);
+              (S_Whitespace, [10])],
+             [], T_Eof)
+  /\ map tok_leaf (filter (fun tok => negb (is_trivia (rk tok))) (snd (select [] ex_src_items)))
+     = [(S_ClassKw, [99; 108; 97; 115; 115]); (S_Id, [67]); (S_Semi, [59])].
+Proof. vm_compute. repeat split; reflexivity. Qed.
+
+(** [ex_src2] = #ifdef A / .. / #endif / } : the disabled ".." yields no diagnostic; the enabled stray
+    brace (a selected token, bytes 19..20) yields the only one *)
+Example C15_parse_error_nonvacuous :
+  raw_lex ex_src2 = render_items ex_src2_items /\ items_ok ex_src2_items = true
+  /\ parse_view (parse_with 2000 grammar_prog grammar_entry ex_src2)
+     = Some ([(S_PreProcessor, [35; 105; 102; 100; 101; 102; 32; 65; 10; 46; 46; 10; 35; 101; 110; 100; 105; 102]);
+              (S_Whitespace, [10]); (S_RBrace, [125]); (S_Whitespace, [10])],
+             [(19, 20, MLit "expected class, def, defm, defset, dump, multiclass, let or foreach")],
+             T_Eof)
+  /\ map tok_leaf (snd (select [] ex_src2_items)) = [(S_Whitespace, [10]); (S_RBrace, [125]); (S_Whitespace, [10])].
+Proof. vm_compute. repeat split; reflexivity. Qed.
